@@ -304,7 +304,7 @@ func (e *Exec) checkFrame(st *State, fr *Frame, env *Env) {
 			if lr, ok := e.lazyRegs[r.Name]; !ok || lr != r || r.Derived {
 				continue // allocated by this unit
 			}
-			if strings.Contains(r.Name, "~c") {
+			if strings.Contains(r.Name, "~c") || strings.Contains(r.Name, "~L") {
 				// region introduced by a callee contract's havoc: its
 				// modification is accounted for by the callee's own frame
 				continue
